@@ -999,3 +999,70 @@ def c13_12(run):
 
 
 from vlib.seqworld import initial_world as initial_world_13
+
+
+# ----------------------------------------------------------------------------------------------------------------- C13-13
+@obligation('C13', 'C13-13 CheckedTransaction::total_costs (what the mempool\'s affordability check uses): per asset, the fees of all actions plus every outbound transfer of that asset (saturating), nothing else')
+def c13_13(run):
+    R = re.compile
+    cfg = {}
+    A1, A2 = z3.BitVec('asset_a', 256), z3.BitVec('asset_b', 256)
+
+    def h_fees(ctx):
+        okv = z3.Bool('fees_ok')
+        def mk(s3):
+            return ok(M.new_map('HashMap<IbcPrefixed, u128>', [(a, f_) for a, f_ in cfg['fees']]))
+        return [(None, M.thunk_future(lambda ex_, s2, fut: [(okv, mk), (z3.Not(okv), (lambda s3: err(Obj('CheckedActionFeeError', kind='error'))))]))]
+
+    def h_transfer(ctx):
+        act = ctx.ex.deref_val(ctx.st, ctx.args[0])
+        t = cfg['transfers'][act.attrs['idx']]
+        return [(None, some((t[0], t[1])) if t else none())]
+    hooks = [(R(r'(^|::)total_fees::<'), h_fees), (R(r'CheckedAction::asset_and_amount_to_transfer$'), h_transfer),
+             (R(r'^<ActionRef<.*> as From<.*>>::from$'), lambda ctx: [(None, Obj('ActionRef', kind='opaque'))])]
+    ex, W = A.engine(extra_hooks=hooks)
+    f = ex.find(r'checked_transaction::<impl at [^>]*>::total_costs$')
+    fa, ta, ta2, tb = z3.BitVec('fee_a', 128), z3.BitVec('transfer_a', 128), z3.BitVec('transfer_a2', 128), z3.BitVec('transfer_b', 128)
+    shapes = [([], []), ([(A1, fa)], []), ([], [(A1, ta)]), ([(A1, fa)], [(A1, ta)]), ([(A1, fa)], [(A2, tb)]), ([(A1, fa)], [(A1, ta), None, (A1, ta2)]), ([(A1, fa)], [(A1, ta), (A2, tb)]), ([], [None])]
+    run.bound(transactions=f'{len(shapes)} shapes: fees in 0..1 assets (total_fees is an oracle; the fee formula is C01-2), 0..3 actions of which each may transfer an amount of asset A or B (A != B)')
+    n = 0
+    x = z3.BitVec('any_asset', 256)
+    sat = lambda a, b: z3.If(z3.BVAddNoOverflow(a, b, False), a + b, z3.BitVecVal((1 << 128) - 1, 128))
+    for si, (fees, transfers) in enumerate(shapes):
+        cfg['fees'] = fees; cfg['transfers'] = transfers
+        acts = []
+        for i in range(len(transfers)):
+            a_ = Obj('CheckedAction'); a_.attrs['idx'] = i; acts.append(a_)
+        tx = B.struct(ex, 'CheckedTransaction', actions=M.new_vec('Vec<CheckedAction>', acts))
+        st = ex.start(f, [B.cell(tx), B.cell(Obj('S', kind='cell'))])
+        st.pc.append(A1 != A2)
+        for i, p in enumerate(run.explore(ex, st, poll=True, allow_havoc=(r'^Arguments::|fmt::',))):
+            lab = f'[shape {si}, path {i}]'
+            if p.kind != 'return':
+                run.prove(f'no panic {lab}', p.pc, z3.BoolVal(False), detail=p.info); continue
+            kind, r = A.poll_result(p)
+            if kind != 'Ok':
+                run.prove(f'an error only when the fees cannot be computed {lab}', p.pc, z3.Not(z3.Bool('fees_ok'))); continue
+            n += 1
+            items = ex.deref_val(p, r.fields[('Ok', 0)]).attrs['items']
+            # expected cost of asset x
+            def expect(asset):
+                tot = None
+                for a, v in fees:
+                    if a is asset: tot = v
+                for t in transfers:
+                    if t and t[0] is asset:
+                        tot = t[1] if tot is None else sat(tot, t[1])
+                return tot
+            claims = []
+            for asset in (A1, A2):
+                e = expect(asset)
+                hits = [ex.deref_val(p, v) for k, v in items if z3.is_true(z3.simplify(ex.deref_val(p, k) == asset)) or ex.deref_val(p, k) is asset]
+                claims.append(z3.BoolVal(len(hits) == (1 if e is not None else 0)))
+                if e is not None and hits:
+                    claims.append(hits[0] == e)
+            claims.append(z3.BoolVal(len(items) == sum(1 for a in (A1, A2) if expect(a) is not None)))
+            run.prove(f'cost per asset = fees + every outbound transfer of that asset (saturating); no other entries {lab}', p.pc, z3.And(*claims))
+    if not n:
+        raise Inconclusive('vacuity')
+    run.require_reached(*run.cur.reach)
